@@ -61,6 +61,9 @@ def run(cmd, timeout=None, cwd=None, stdin=None, limit_mem=False, env=None):
     return p.returncode, out.decode("utf-8", "replace"), time.time() - t0, to
 
 
+os.environ.setdefault("ASAN_OPTIONS", "detect_leaks=0")
+
+
 class Ctx:
     def __init__(self, prop, tier, scratch, jobs, keep):
         self.prop, self.tier, self.scratch, self.jobs, self.keep = prop, tier, scratch, jobs, keep
@@ -157,7 +160,10 @@ def cbmc_cmd(ob, tcfg, cfile, entry, extra=(), params=()):
     if "max_alloc" in tcfg or "max_alloc" in ob:
         cmd.append("-DVERIF_MAX_ALLOC=%d" % tcfg.get("max_alloc", ob.get("max_alloc")))
     cmd += ["--function", "verif_main_" + entry] + CBMC_BASE
-    cmd += ["--unwind", str(tcfg.get("unwind", 8))]
+    uw = tcfg.get("unwind", 8)
+    if isinstance(uw, str):
+        uw = int(eval(uw, {}, {"p%d" % i: v for i, v in enumerate(params)}))
+    cmd += ["--unwind", str(uw)]
     us = tcfg.get("unwindset", {})
     if us:
         cmd += ["--unwindset", ",".join("%s:%d" % (k, v) for k, v in us.items())]
@@ -265,8 +271,12 @@ def prepare(ctx, ob):
             cmd += ["--drop", d]
         for d in DEFAULT_NOOP + ob.get("noop", []):
             cmd += ["--noop", d]
+        for d in ob.get("cut", []):
+            cmd += ["--cut", d]
         if ob.get("watch"):
             cmd.append("--watch")
+        if not ob.get("ctors", True):
+            cmd.append("--no-ctors")
         rc, out, dt, to = run(cmd, timeout=600)
         if rc != 0:
             raise Inconclusive("ir2c failed for %s:\n%s" % (ob["id"], out[-3000:]))
@@ -274,6 +284,7 @@ def prepare(ctx, ob):
         res["functions_encoded"] = info["functions"]
         res["externs"] = info["externs"]
         res["nooped"] = info.get("nooped", [])
+        res["cut"] = info.get("cut", [])
         res["ir_instructions"] = info["instructions"]
         if info["unsupported"]:
             res["ir2c_unsupported"] = info["unsupported"]
@@ -293,6 +304,8 @@ def run_instance(ctx, ob, res, params):
     r = dict(params=list(params), status="?")
     try:
         timeout = tcfg.get("timeout", 600)
+        if os.environ.get("VERIF_TIMEOUT_CAP"):
+            timeout = min(timeout, int(os.environ["VERIF_TIMEOUT_CAP"]))
         cmd = cbmc_cmd(ob, tcfg, cfile, entry, ["--verbosity", "8"], params=params)
         r["checker_cmd"] = " ".join(cmd).replace(ctx.scratch, "$SCRATCH")
         rc, out, dt, to = run(cmd, timeout=timeout, limit_mem=True)
@@ -557,7 +570,8 @@ def write_evidence(prop, P, tier, seed, results, wall, violations):
                       tier_cfg=r.get("tier_cfg"), solver_instances=r.get("instances"), cbmc_properties=r.get("properties"), witnesses_reached=r.get("witnesses_reached"),
                       sat_variables=r.get("sat_variables"), sat_clauses=r.get("sat_clauses"), solver_s=r.get("solver_s"),
                       symex_s=r.get("symex_s"), cbmc_wall_s=r.get("cbmc_wall_s"), ir_instructions=r.get("ir_instructions"),
-                      validation_vectors_agree=r.get("validation_vectors_agree"),
+                      validation_vectors_agree=r.get("validation_vectors_agree"), functions_made_noop=r.get("nooped"),
+                      functions_cut_as_bound=r.get("cut"),
                       note=r.get("note", "")[:600]) for r in results],
         obligations=len(results),
         discharged=len(passed),
